@@ -50,3 +50,27 @@ def run(binary, args=(), stdin=None, timeout=300, leaks=True, env=None, cwd=None
     except subprocess.TimeoutExpired as ex:
         return Run(124, (ex.stdout or b"").decode(errors="replace") if isinstance(ex.stdout, bytes) else (ex.stdout or ""),
                    (ex.stderr or b"").decode(errors="replace") if isinstance(ex.stderr, bytes) else (ex.stderr or ""))
+
+
+def crash_key(why):
+    """A key for a crash that is stable across seeds/inputs: where it happened, not what was fed.
+    assertion: crash:<file>:<function>:assert ; sanitizer: crash:<kind>:<top frame in the library> ; else crash:<signal>"""
+    import re
+    m = re.search(r"([\w./-]+\.c):\d+: (?:[\w \*]+? )?\**(\w+)\(.*?Assertion", why)
+    if m:
+        return "crash:%s:%s:assert" % (m.group(1).split("/")[-1], m.group(2))
+    m = re.search(r"ERROR: (AddressSanitizer|LeakSanitizer): ([\w-]+)", why)
+    if m:
+        fr = re.search(r"#\d+ 0x[0-9a-f]+ in (\w+) [^\n|]*?/src/([\w/]+\.c)", why)
+        if fr and not fr.group(1).startswith("__"):
+            return "crash:%s:%s:%s" % (m.group(2), fr.group(2).split("/")[-1], fr.group(1))
+        fr = [x for x in re.findall(r"#\d+ 0x[0-9a-f]+ in (\w+) [^\n|]*?/src/([\w/]+\.c)", why) if not x[0].startswith("__")]
+        if fr:
+            return "crash:%s:%s:%s" % (m.group(2), fr[0][1].split("/")[-1], fr[0][0])
+        return "crash:%s" % m.group(2)
+    m = re.search(r"runtime error: ([\w -]+)", why)
+    if m:
+        return "crash:ubsan:" + m.group(1).strip().replace(" ", "-")[:40]
+    if "timeout" in why:
+        return "crash:timeout"
+    return "crash:" + why.split(":")[0].replace(" ", "-")[:30]
